@@ -251,13 +251,14 @@ static void check_firstbytes(vf::Ctx& c, const std::string& path, const Bytes& m
 		case 2: k = n ? n - 1 : 0; break;
 		case 3: k = n; break;
 		case 4: k = n + 1; break;
-		case 5: k = n + 70000; break;
+		case 5: k = c.rng.chance(0.15) ? n + ((size_t)c.rng.range(1, 5) << 20) + c.rng.below(3) : n + 70000; break;   // sometimes megabytes more than the file holds
 		case 6: k = (size_t)BND[c.rng.below(NBND)]; break;
 		default: k = c.rng.below((uint32_t)n + 2);
 		}
 		ByteArray a = File(S(path)).firstBytes((int)k);
 		same(c, k <= n ? "firstBytes.within" : "firstBytes.beyond-end", bytes_of(a), model.substr(0, k < n ? k : n));
 		c.count(k <= n ? "readback.firstBytes.within" : "readback.firstBytes.beyond-end");
+		if (k > n + (1u << 20)) c.count("readback.firstBytes.request-exceeds-the-file-by-more-than-1MiB");
 	}
 }
 
